@@ -139,70 +139,72 @@ Definition glue_laws (W : world) : Prop :=
   (forall m rq, w_elasticity W m [] rq = m).
 
 (* (a) TAKE THEN RESTORE, same world size, seen from one rank.  For every application state A = {key -> stateful} with
-   distinct non-empty keys (an empty key is C05's known finding) whose state dicts have dicts with distinct keys (wf_obj), no
-   RNGState among them, storage locations of distinct leaves distinct (C05), every replication glob list, sync or async,
-   batching on or off (inside W), and for EVERY set T of restore targets whose keys are among A's (any subset, any current
-   contents of the targets): take succeeds, restore succeeds, and the load_state_dict calls are exactly
-   [expected_loads]: in the order of the sorted keys, each requested stateful receives the object its counterpart's
-   state_dict() returned at take time - same container types, keys with their types, key order, leaves (with strict= only
-   for nn.Modules).  Also: take calls prepare_write once per leaf with obj / logical_path / rank / replicated = (path in
-   the replicated paths) / is_async_snapshot = the caller's flag; restore hands every prepare_read the tensor found at the
-   same logical path in the target's own state dict as in-place destination. *)
+   distinct non-empty keys (an empty key is C05's known finding) whose state dicts have dicts with distinct keys (wf_app), at
+   most one RNGState among them (more than one: _pop_rng_state raises), storage locations of distinct leaves distinct (C05),
+   every replication glob list, sync or async, batching on or off (inside W), and for EVERY set T of restore targets whose
+   keys are among A's (any subset, any current contents of the targets, at most one RNGState): take succeeds, restore
+   succeeds, and the load_state_dict calls restore makes are exactly [all_expected_loads]: in the order of the sorted keys,
+   the RNGState last, each requested stateful receives the object its counterpart's state_dict() returned at take time - same
+   container types, keys with their types, key order, leaves (with strict= only for nn.Modules).  Also: the only
+   load_state_dict take itself makes re-applies the RNG state it read first; take calls prepare_write once per leaf with obj /
+   logical_path / rank / replicated = (path in the replicated paths) / is_async_snapshot = the caller's flag; restore hands
+   every prepare_read the tensor found at the same logical path in the target's own state dict as in-place destination. *)
 Theorem C01_generated_take_restore : forall (W : world) A repl is_async custom path T strict,
   glue_laws W ->
-  NoDup (map fst A) -> no_rng A -> wf_app A -> nonempty_keys A -> locations_distinct W A ->
-  NoDup (map fst T) -> no_rng T -> (forall k t, In (k, t) T -> exists a, In (k, a) A) ->
+  NoDup (map fst A) -> rng_at_most_one A -> wf_app A -> nonempty_keys A -> locations_distinct W A ->
+  NoDup (map fst T) -> rng_at_most_one T -> (forall k t, In (k, t) T -> exists a, In (k, a) A) ->
   exists st md x1 gkA gk x2,
-    gather_keys_gen W (sdict_keys A) = Some gkA /\
+    NoDup gkA /\ (forall k, In k (map fst A) -> In k gkA) /\
     take_impl_gen W path A repl [] is_async custom fx0 = Some ((st, md), x1) /\
-    fx_loads x1 = [] /\
+    fx_loads x1 = rng_loads A /\
     fx_writes x1 = map (wcall_of W (w_calc_replicated W (concat (map (blkF A) gkA)) repl) is_async custom) (concat (map (blkF A) gkA)) /\
-    gather_keys_gen W (sdict_keys T) = Some gk /\ NoDup gk /\ (forall k, In k (map fst T) -> In k gk) /\
+    gather_keys_gen W (sdict_keys (non_rng T)) = Some gk /\ NoDup gk /\ (forall k, In k (map fst (non_rng T)) -> In k gk) /\
     restore_gen W (mkSnap md st) T strict fx0 = Some x2 /\
-    fx_loads x2 = expected_loads A T strict gk /\
-    fx_preps x2 = expected_preps W T (fst (w_manifest_for_rank W md (w_rank W))) gk.
+    fx_loads x2 = all_expected_loads A T strict gk /\
+    fx_preps x2 = all_expected_preps W T (fst (w_manifest_for_rank W md (w_rank W))) gk.
 Proof.
   intros W A repl is_async custom path T strict (L1 & L2 & L3 & L4 & L5 & L6 & L7 & L8).
-  exact (take_restore_no_rng W L1 L2 L3 L4 L5 L6 L7 L8 A repl is_async custom path T strict).
+  exact (take_restore W L1 L2 L3 L4 L5 L6 L7 L8 A repl is_async custom path T strict).
 Qed.
 Print Assumptions C01_generated_take_restore.
 
 (* ... in the one-rank world, where every law is proved *)
 Theorem C01_generated_take_restore_one_rank : forall nobatch table A repl is_async custom path T strict,
   let W := world1 nobatch table in
-  NoDup (map fst A) -> no_rng A -> wf_app A -> nonempty_keys A ->
-  NoDup (map fst T) -> no_rng T -> (forall k t, In (k, t) T -> exists a, In (k, a) A) ->
+  NoDup (map fst A) -> rng_at_most_one A -> wf_app A -> nonempty_keys A ->
+  NoDup (map fst T) -> rng_at_most_one T -> (forall k t, In (k, t) T -> exists a, In (k, a) A) ->
   exists st md x1 gkA gk x2,
-    gather_keys_gen W (sdict_keys A) = Some gkA /\
+    NoDup gkA /\ (forall k, In k (map fst A) -> In k gkA) /\
     take_impl_gen W path A repl [] is_async custom fx0 = Some ((st, md), x1) /\
-    fx_loads x1 = [] /\
+    fx_loads x1 = rng_loads A /\
     fx_writes x1 = map (wcall_of W (w_calc_replicated W (concat (map (blkF A) gkA)) repl) is_async custom) (concat (map (blkF A) gkA)) /\
-    gather_keys_gen W (sdict_keys T) = Some gk /\ NoDup gk /\ (forall k, In k (map fst T) -> In k gk) /\
+    gather_keys_gen W (sdict_keys (non_rng T)) = Some gk /\ NoDup gk /\ (forall k, In k (map fst (non_rng T)) -> In k gk) /\
     restore_gen W (mkSnap md st) T strict fx0 = Some x2 /\
-    fx_loads x2 = expected_loads A T strict gk /\
-    fx_preps x2 = expected_preps W T (fst (w_manifest_for_rank W md (w_rank W))) gk.
+    fx_loads x2 = all_expected_loads A T strict gk /\
+    fx_preps x2 = all_expected_preps W T (fst (w_manifest_for_rank W md (w_rank W))) gk.
 Proof. exact take_restore_one_rank. Qed.
 Print Assumptions C01_generated_take_restore_one_rank.
 
-(* what [expected_loads] says: the loads are exactly one per requested stateful, with the saved state dict *)
-Theorem C01_generated_loads_are_the_saved_state_dicts : forall A T strict gk ev, NoDup (map fst A) -> NoDup (map fst T) ->
-  (forall k, In k (map fst T) -> In k gk) -> (forall k t, In (k, t) T -> exists a, In (k, a) A) ->
-  (In ev (expected_loads A T strict gk) <->
+(* what [all_expected_loads] says: the loads are exactly one per requested stateful (RNGState included), with the saved state dict *)
+Theorem C01_generated_loads_are_the_saved_state_dicts : forall A T strict gk ev,
+  NoDup (map fst A) -> NoDup (map fst T) -> rng_at_most_one T ->
+  (forall k, In k (map fst (non_rng T)) -> In k gk) -> (forall k t, In (k, t) T -> exists a, In (k, a) A) ->
+  (In ev (all_expected_loads A T strict gk) <->
    exists k t a, In (k, t) T /\ In (k, a) A /\ ev = mkLoad (sf_id t) (sf_state a) (strict_of t strict)).
-Proof. exact expected_loads_in. Qed.
+Proof. exact all_expected_loads_in. Qed.
 Print Assumptions C01_generated_loads_are_the_saved_state_dicts.
 
-(* With an RNGState in the application state the code flattens it FIRST (before any state_dict() of the others runs),
-   re-applies it after the loop, and restore loads it LAST; the statement is the one above with [no_rng] dropped and the
-   RNG stateful's load moved to the end of [expected_loads].  NOT PROVED here (C01_generated_take_restore is the _partial
-   result: no RNGState); the generated terms run that case in C01_example_generated_glue below and against the real code
-   in every run of the correspondence; property C19 owns the ordering argument. *)
+(* the translated _pop_rng_state: with at most one RNGState it returns that item and the application state without it *)
+Theorem C01_generated_pop_rng_state : forall W A, NoDup (map fst A) -> rng_at_most_one A ->
+  pop_rng_state_gen W A = Some (rng_item A, non_rng A).
+Proof. exact pop_rng_state_spec. Qed.
+Print Assumptions C01_generated_pop_rng_state.
 
 (* (b) THE MANIFEST take wrote, as the rank sees it through get_manifest_for_rank: distinct paths; exactly the container
    entries flatten produced for every stateful; every leaf of every stateful has an entry (exactly one: paths are distinct)
    through which the leaf is read back from the snapshot's storage, and there is no other entry. *)
 Theorem C01_generated_manifest_lists_every_leaf_once : forall (W : world) A repl is_async custom path,
-  glue_laws W -> NoDup (map fst A) -> no_rng A -> nonempty_keys A -> locations_distinct W A ->
+  glue_laws W -> NoDup (map fst A) -> rng_at_most_one A -> nonempty_keys A -> locations_distinct W A ->
   exists st md x1,
     take_impl_gen W path A repl [] is_async custom fx0 = Some ((st, md), x1) /\
     let v := fst (w_manifest_for_rank W md (w_rank W)) in
@@ -222,7 +224,7 @@ Print Assumptions C01_generated_manifest_lists_every_leaf_once.
    under "<rank>/<logical path>" (the generated os.path.join(str(rank), logical_path), C05) of exactly one entry of the view *)
 Theorem C01_generated_manifest_one_rank : forall nobatch table A repl is_async custom path,
   let W := world1 nobatch table in
-  NoDup (map fst A) -> no_rng A -> nonempty_keys A ->
+  NoDup (map fst A) -> rng_at_most_one A -> nonempty_keys A ->
   exists st md x1,
     take_impl_gen W path A repl [] is_async custom fx0 = Some ((st, md), x1) /\
     let v := view1 md 0 in
@@ -238,7 +240,7 @@ Print Assumptions C01_generated_manifest_one_rank.
 (* (c) READ_OBJECT("<rank>/<logical path>") returns the leaf stored for that path (with or without obj_out, with or without
    a memory budget, batching on or off), and raises for a path that is not in the rank's view of the manifest. *)
 Theorem C01_generated_read_object : forall (W : world) A repl is_async custom path out mb,
-  glue_laws W -> NoDup (map fst A) -> no_rng A -> nonempty_keys A -> locations_distinct W A ->
+  glue_laws W -> NoDup (map fst A) -> rng_at_most_one A -> nonempty_keys A -> locations_distinct W A ->
   exists st md x1,
     take_impl_gen W path A repl [] is_async custom fx0 = Some ((st, md), x1) /\
     (forall k a p o, In (k, a) A -> In (p, o) (snd (flatten_s (sf_state a) k)) ->
@@ -253,7 +255,7 @@ Print Assumptions C01_generated_read_object.
 
 Theorem C01_generated_read_object_one_rank : forall nobatch table A repl is_async custom path out mb,
   let W := world1 nobatch table in
-  NoDup (map fst A) -> no_rng A -> nonempty_keys A ->
+  NoDup (map fst A) -> rng_at_most_one A -> nonempty_keys A ->
   exists st md x1,
     take_impl_gen W path A repl [] is_async custom fx0 = Some ((st, md), x1) /\
     (forall k a p o, In (k, a) A -> In (p, o) (snd (flatten_s (sf_state a) k)) ->
